@@ -357,6 +357,8 @@ def run(chk):
         from . import c07
         return True, "see C07.R5 (flush reaches every signal)", ["C07.R5"]
     common.arg_agreement_rule(chk, P, "C12", [("emit_otlp", "src/client.rs"), ("emit_otlp", "src/client/http.rs")], 10)
+    common.config_wiring_rule(chk, P, "C12.R9:transport-configuration", "the transport's configured headers and compression switch reach the HTTP connection "
+                              "of either protocol version unchanged", ["emit_otlp::client::OtlpTransportBuilder::build"], 4)
     common.results_inspected_rule(
         chk, P, "C12.R8:results-inspected", "no transport, encoding or configuration failure in the OTLP client is silently dropped",
         lambda b: b.crate == "emit_otlp" and "generated" not in b.file and "::tests::" not in b.key and "/data" not in b.file,
